@@ -118,7 +118,7 @@ def run(ctx):
     for k in core.load_known():
         if k.get("status") == "known" and k.get("property") == "C05" and k.get("id") == "F8":
             w = json.load(open(os.path.join(core.ROOT, k["witness"])))
-            w["wall_limit"] = 8
+            w["wall_limit"] = 60
             r = simcommon.run_worlds([w], jobs=1, chunk=1)[0]
             if r["status"] in ("livelock", "wallclock"):
                 ctx.known("F8", k["what_fails"])
